@@ -370,3 +370,18 @@ def load_corpus(pid):
         if head:
             out.append((LP(head[2] == "max", Fraction(head[3]), cols, rows, "corpus:" + f[:-3]), cfgs or [{}]))
     return out
+
+
+def parse_lp_text(text, family="replay"):
+    cols, rows, head = [], [], None
+    for l in text.splitlines():
+        t = l.split()
+        if not t:
+            continue
+        if t[0] == "LP":
+            head = t
+        elif t[0] == "C":
+            cols.append((Fraction(t[1]), fr(t[2]), fr(t[3])))
+        elif t[0] == "R":
+            rows.append((fr(t[1]), {int(e.split(":")[0]): Fraction(e.split(":")[1]) for e in t[3:]}, fr(t[2])))
+    return LP(head[2] == "max", Fraction(head[3]), cols, rows, family)
